@@ -66,6 +66,9 @@ def ref_order(root: dict, prune, flt, mode: str, skip_self: bool) -> list[dict]:
     return out
 
 
+MRO_OF = lambda c: [*L.BASES[c], "AwareASTNode"]  # noqa: E731
+
+
 def check_tree(data: dict, lab: Labels) -> None:
     with warnings.catch_warnings():
         warnings.simplefilter("ignore", DeprecationWarning)
@@ -173,6 +176,10 @@ def _check_tree(data: dict, lab: Labels) -> None:
             steps, relative, ws = xp[1], xp[2], xp[3]
             if relative and X.is_marker(steps[0]):
                 relative = False
+        elif xp[0] == "subseq":
+            target = specs[xp[1] % n]
+            steps, relative = X.subsequence_path(chains[id(target)], MRO_OF, xp[2], xp[3], xp[4])
+            ws = 0
         else:
             target = specs[xp[1] % n]
             steps, relative = _derive(chains[id(target)], xp[2], xp[3])
@@ -215,6 +222,9 @@ def _check_tree(data: dict, lab: Labels) -> None:
     del live_idx
 
 
+FIELD_CHILD = None
+
+
 def _derive(chain: list[tuple], bits: int, perturb: int) -> tuple[list[dict], bool]:
     steps: list[dict] = []
     n = len(chain)
@@ -234,16 +244,33 @@ def _derive(chain: list[tuple], bits: int, perturb: int) -> tuple[list[dict], bo
         steps.append(step)
     if relative and steps and X.is_marker(steps[0]):
         relative = False
-    p = perturb % 7
-    real = [s for s in steps if not X.is_marker(s)]
-    if p == 1 and real:
-        s = real[perturb // 7 % len(real)]
-        if s["index"] not in (None, ""):
-            s["index"] = str(int(s["index"]) + 1)
-    elif p == 2 and real:
-        s = real[perturb // 7 % len(real)]
-        if s["index"] not in (None, "") and len(s["index"]) >= 2:
-            s["index"] = s["index"][0]
+    for p, sel in ((perturb % 8, perturb // 64), ((perturb // 8) % 8, perturb // 128 + 1)):
+        real = [s for s in steps if not X.is_marker(s)]
+        if p == 1 and real:
+            s = real[sel % len(real)]
+            if s["index"] not in (None, ""):
+                s["index"] = str(int(s["index"]) + 1)
+        elif p == 2 and real:
+            s = real[sel % len(real)]
+            if s["index"] not in (None, "") and len(s["index"]) >= 2:
+                s["index"] = s["index"][0]  # what a first-digit-only parser would read
+        elif p == 3 and real and FIELD_CHILD:
+            real[sel % len(real)]["field"] = FIELD_CHILD
+        elif p == 4 and len(real) >= 3:
+            # drop a middle step without leaving a `//` behind: adjacency must now fail
+            victim = real[1 + sel % (len(real) - 2)]
+            steps = [s for s in steps if s is not victim]
+        elif p == 5:
+            # turn one `//` into `/`
+            markers = [s for s in steps if X.is_marker(s)]
+            if markers:
+                victim = markers[sel % len(markers)]
+                steps = [s for s in steps if s is not victim]
+        elif p == 6 and len(steps) >= 2:
+            # insert a `//` between two steps (a direct child is still a descendant)
+            k = 1 + sel % (len(steps) - 1)
+            if not X.is_marker(steps[k]) and not X.is_marker(steps[k - 1]):
+                steps = [*steps[:k], {"field": None, "index": None, "cls": None}, *steps[k:]]
     return steps, relative
 
 
@@ -254,10 +281,12 @@ def st_case(ctx: Ctx):
     raw = st.tuples(st.just("raw"), X.st_steps(CLASS_NAMES, FIELD_NAMES), st.booleans(), st.integers(0, 2**12)).map(list)
     derived = st.tuples(st.just("derived"), st.integers(0, 60), st.integers(0, 2**30), st.integers(0, 500),
                         st.sampled_from([0, 0, 5, 1023])).map(list)
-    tree = L.st_tree(leaves=ctx.pick(9, 13))
+    subseq = st.tuples(st.just("subseq"), st.integers(0, 60), st.integers(0, 255), st.integers(0, 255),
+                       st.integers(0, 2**16)).map(list)
+    tree = st.one_of(L.st_tree(leaves=ctx.pick(9, 13)), L.st_tree(leaves=ctx.pick(14, 18), width=2, wide=False))
     return st.fixed_dictionaries({
         "tree": tree, "start": st.sampled_from([0, 0, 0, 1, 2, 5]), "masks": masks, "gather": gmask,
-        "xpaths": st.lists(st.one_of(raw, derived, derived), min_size=4, max_size=4),
+        "xpaths": st.lists(st.one_of(raw, derived, derived, subseq, subseq), min_size=5, max_size=5),
         "bad": st.lists(st.integers(0, 30), min_size=2, max_size=2), "thorough": st.just(ctx.thorough),
     })
 
